@@ -1,5 +1,5 @@
 /-
-  C18 — Text object format round-trips every object file.   (assembled files, with or without debug symbols, and links of files without debug symbols: proved)
+  C18 — Text object format round-trips every object file.   (proved for every file produced by assembling and linking files that carry symbol tables)
   Proved: the part the property singles out — "whatever characters the source text contains": for every string,
   `unescaper::unescape` applied to `str::escape_default` of it gives the string back (two-character escapes, printable
   ASCII, and `\u{…}` with lower-case hex for everything else, for every Unicode scalar), with the amount of fuel the
@@ -29,9 +29,15 @@
   escaped raw source lines, re-joined and unescaped, are the source text (`all_srcLines`, C18Core's escape theorem).
   `DbgOk` holds for every file assembled with debug symbols from a source text that parses (`source_dbgOk`,
   `final_vector2`), so such files round-trip with no further hypothesis.
-  Not proved: files obtained by LINKING files that carry debug symbols (merged line maps and concatenated sources); for
-  those the correspondence check compares the model's writer byte for byte with the implementation's and both readers
-  must return the original file.
+  `text_roundtrip_assembled_or_linked` (Lemmas/TxtLink) is the property as stated: any object file produced by assembling
+  source texts (with or without debug symbols) and linking the results in any order and grouping is read back from its
+  text form — blocks, label and relocation tables (writer's row order), line table and source text.  `DebugSyms.link` keeps
+  the shape of the debug symbols (`DOk.link`: the merged line map is the condensation of the two per-line vectors one
+  after the other — `runs_append`, `runs_shift`, `C22.link_find` — over the two sources joined by a line feed), `link` keeps
+  `TOk` (`link_tOk`), every assembled file meets it (`source_tOk`), and `tOk_roundtrip` needs nothing else.  Side
+  condition: the sources that carry debug symbols together have at most 2^64 lines.
+  By correspondence only: links in which one operand carries no symbol table at all (`link` then keeps the other
+  operand's table over the merged blocks), and files written by hand or produced by the readers.
   The theorems of the first paragraph are in Lemmas/C18Core.lean.
 -/
 import Lc3V.Lemmas.C18Core
@@ -39,6 +45,7 @@ import Lc3V.Lemmas.TxtBlocks
 import Lc3V.Lemmas.TxtSym
 import Lc3V.Lemmas.TxtSource
 import Lc3V.Lemmas.TxtDebug
+import Lc3V.Lemmas.TxtLink
 namespace Lc3V.C18
 open Lc3V Txt
 
@@ -52,6 +59,8 @@ def obligations : List Lean.Name :=
    ``Lc3V.lexOne_label_word, ``Lc3V.parseAst_names, ``Lc3V.upperC_word_ok, ``Lc3V.nameOk_upper, ``Lc3V.source_symOk,
    ``Lc3V.source_text_roundtrip_nodebug, ``Lc3V.link_txtOk, ``Lc3V.C20.linked_text_roundtrip,
    ``Lc3V.Txt.lineTable_rows, ``Lc3V.Txt.all_srcLines, ``Lc3V.Txt.lineTable_parse, ``Lc3V.Txt.kept_lines3, ``Lc3V.Txt.read_dbg2,
-   ``Lc3V.Txt.dbg_section_roundtrip, ``Lc3V.final_vector2, ``Lc3V.source_dbgOk, ``Lc3V.source_text_roundtrip_debug]
+   ``Lc3V.Txt.dbg_section_roundtrip, ``Lc3V.final_vector2, ``Lc3V.source_dbgOk, ``Lc3V.source_text_roundtrip_debug,
+   ``Lc3V.Txt.runs_append, ``Lc3V.Txt.DOk.link, ``Lc3V.tOk_roundtrip, ``Lc3V.link_tOk, ``Lc3V.source_tOk,
+   ``Lc3V.C20.text_roundtrip_assembled_or_linked]
 
 end Lc3V.C18
